@@ -33,7 +33,7 @@ func (c09) Meta() fw.Meta {
 			"the oracle uses the clock the command printed; the symmetry relation is only judged when both runs printed the same clock",
 			"a glob pattern that matches nothing on the source side is not a 'missing file' and is not judged here (C16 covers it)",
 		},
-		Obligations: []string{"diff_runs", "clean_verdicts", "diff_verdicts", "records_checked", "self_diff", "identical_files", "ulp_apart", "signed_zero_equal", "nan_vs_nan_equal", "nan_vs_value", "missing_src", "missing_dest", "layout_mismatch_error", "symmetry_checked", "glob_one_differs", "glob_none_differs", "single_archive_selection", "remote_side_runs", "text_out_file_runs", "never_written_side", "symlinked_source_in_glob", "unclean_base_spelling", "remote_glob_runs", "both_sides_remote_runs", "both_sides_remote_long_archives", "runs_with_concurrent_clients", "concurrent_noise_requests_served", "server_socket_writes_delayed", "file_names_needing_query_escaping", "glob_with_mismatch_and_difference", "glob_with_a_missing_destination_base"},
+		Obligations: []string{"diff_runs", "clean_verdicts", "diff_verdicts", "records_checked", "self_diff", "identical_files", "ulp_apart", "signed_zero_equal", "nan_vs_nan_equal", "nan_vs_value", "missing_src", "missing_dest", "layout_mismatch_error", "symmetry_checked", "glob_one_differs", "glob_none_differs", "single_archive_selection", "remote_side_runs", "text_out_file_runs", "never_written_side", "symlinked_source_in_glob", "unclean_base_spelling", "remote_glob_runs", "both_sides_remote_runs", "both_sides_remote_long_archives", "runs_with_concurrent_clients", "concurrent_noise_requests_served", "server_socket_writes_delayed", "file_names_needing_query_escaping", "glob_with_mismatch_and_difference", "glob_against_a_nonexistent_destination_base"},
 		Workers:     12,
 	}
 }
@@ -603,6 +603,22 @@ func (c09) Run(c *fw.Ctx) {
 		if res3.Exit != 2 {
 			c.Violationf("layout-mismatch-verdict", fw.J{"scenario": sc, "run": res3.brief(), "mismatching_file": sc.Files[mi], "differing_file": sc.Files[1-mi]},
 				"glob diff in which %s has unequal layouts and %s differs exited %d, want an error (2)", sc.Files[mi], sc.Files[1-mi], res3.Exit)
+			return
+		}
+	}
+	// ---- the same glob against a destination base that does not exist at all: every file is missing on that side, which
+	// is a reported difference per file, not a failure of the run
+	if sc.Glob && extra == nil && toFile == "" && !c.Violated() {
+		res4 := runCLI(c, mkArgs(aBase, filepath.Join(dir, "no-such-base"), pat)...)
+		out4 := parseOutput(res4.Stdout)
+		c.Count("glob_against_a_nonexistent_destination_base", 1)
+		if cliPanicked(res4) {
+			c.Violationf("panic", fw.J{"scenario": sc, "run": res4.brief()}, "diff panicked")
+			return
+		}
+		if res4.Exit != 1 || len(out4.Errs) != len(sc.Files) {
+			c.Violationf("missing-side-verdict", fw.J{"scenario": sc, "run": res4.brief(), "files": len(sc.Files), "err_lines": len(out4.Errs)},
+				"glob diff against a destination base that does not exist exited %d with %d err: lines for %d matched files; want exit 1 and one err: line per file", res4.Exit, len(out4.Errs), len(sc.Files))
 			return
 		}
 	}
